@@ -1282,10 +1282,13 @@ class TT():
 
         exclude = []
 
-        # a bool is no index (torch reads it as a mask)
+        # numpy integers and 0-d integer tensors are integers; a bool is no index (torch reads it as a mask)
         entries = index if isinstance(index, tuple) else (index,)
         if any(isinstance(i, (bool, np.bool_)) or (tn.is_tensor(i) and i.dtype == tn.bool) for i in entries):
             raise InvalidArguments('Invalid slice.')
+        entries = tuple(int(i) if isinstance(i, np.integer) or (tn.is_tensor(i) and i.dim() == 0 and not (
+            i.is_floating_point() or i.is_complex())) else i for i in entries)
+        index = entries if isinstance(index, tuple) else entries[0]
 
         if isinstance(index, tuple):
             # check if more than two Ellipsis are to be found.
